@@ -75,6 +75,9 @@ func DumpTx(tx *bolt.Tx, o DumpOpts) (*refmodel.Node, error) {
 			return fmt.Errorf("root: ForEach yielded nil bucket for %q", name)
 		}
 		names = append(names, append([]byte{}, name...))
+		if tb := tx.Bucket(name); tb == nil {
+			return fmt.Errorf("root: Tx.Bucket(%q) is nil for a name ForEach yields", name)
+		}
 		sub, err := dumpBucket(b, "/"+string(name), o)
 		if err != nil {
 			return err
@@ -150,6 +153,24 @@ func dumpBucket(b *bolt.Bucket, path string, o DumpOpts) (*refmodel.Node, error)
 			}
 			n.Ent[string(it.k)] = &refmodel.Ent{Val: append([]byte{}, it.v...)}
 		}
+	}
+	// ForEachBucket must yield exactly the nested-bucket keys, in the same order
+	var subs [][]byte
+	if err := b.ForEachBucket(func(k []byte) error { subs = append(subs, append([]byte{}, k...)); return nil }); err != nil {
+		return nil, fmt.Errorf("%s: ForEachBucket: %v", path, err)
+	}
+	j := 0
+	for _, it := range items {
+		if it.v != nil {
+			continue
+		}
+		if j >= len(subs) || !bytes.Equal(subs[j], it.k) {
+			return nil, fmt.Errorf("%s: ForEachBucket differs from ForEach at nested bucket %q", path, it.k)
+		}
+		j++
+	}
+	if j != len(subs) {
+		return nil, fmt.Errorf("%s: ForEachBucket yields %d names, ForEach %d nested buckets", path, len(subs), j)
 	}
 	if o.Backward {
 		c := b.Cursor()
